@@ -195,15 +195,18 @@ def _run_one(cc, func, it, ctx, config, res, tname):
         assume_value(it, v)
     # vacuity: the precondition must be satisfiable on this path (checked by the solver later)
     ctx.oblige(f"{tname}.requires-reachable", z3.BoolVal(False), kind="vacuity")
-    old_vals, old_G, old_world = snapshot_state(it, values=list(args) + list(kwargs.values()))
+    env_keys = [k for k in env if not k.startswith("cfg_") and k not in ("inbound", "inbound_label")]
+    old_vals, old_G, old_world = snapshot_state(it, values=list(args) + list(kwargs.values()) + [env[k] for k in env_keys])
     old = NS({})
     pnames = _param_names(func, it, cc)
     for n, v in zip(pnames, old_vals):
         old.d[n] = v
     old.d["G"] = old_G
     old.d["world"] = old_world
-    for k, v in env.items():
+    nargs = len(args) + len(kwargs)
+    for k, v in zip(env_keys, old_vals[nargs:]):
         old.d.setdefault(k, v)
+        old.d.setdefault(k + "_now", env[k])
     # ---- body
     ctx.mode = "exec"
     if func is not None:
@@ -261,8 +264,10 @@ def _run_one(cc, func, it, ctx, config, res, tname):
     fallback = []
     for nm, fn in items:
         fn = fn.__func__ if isinstance(fn, staticmethod) else fn
-        n_pc = len(ctx.pc)
+        ctx.push_scope()
+        it.pure_cache = {}
         it.formula_mode = True
+        lb_seen = set(getattr(getattr(ctx, "_lawbook", None), "seen", ()))
         try:
             v = it.call(fn, [old] + list(args) + [result], dict(kwargs))
             assert_value(it, f"{tname}.{nm}", v, kind="post")
@@ -270,6 +275,11 @@ def _run_one(cc, func, it, ctx, config, res, tname):
             fallback.append((nm, fn))
         finally:
             it.formula_mode = False
+            ctx.pop_scope()
+            it.pure_cache = {}
+            if getattr(ctx, "_lawbook", None) is not None:
+                # law instances made inside the scope were dropped with its facts: forget their memo
+                ctx._lawbook.seen = lb_seen
     if not fallback:
         return
     k = ctx.choose([z3.BoolVal(True)] * len(fallback), labels=[nm for nm, _ in fallback], site="ensures") if len(fallback) > 1 else 0
